@@ -638,3 +638,43 @@ Theorem crash_during_retry : forall c w, store_inv c w -> c_dirty w = true ->
 Proof.
   intros c w [[Hd _]|[_ [m0 [e [Hm Hk]]]]] Hdirty; [congruence|]. exists m0, e. split; [exact Hm | simpl; exact Hk].
 Qed.
+
+(* ---- the store model with failing writes and the runner model [run_events] *)
+Definition cerase (ce : cevent) : list event :=
+  match ce with CStep ERestart _ => [] | CStep e _ => [e] | CRetry => [] | CCrash => [ERestart] end.
+Definition all_written (evs : list cevent) : bool :=
+  forallb (fun ce => match ce with CStep _ false => false | _ => true end) evs.
+
+(* when no write fails, a history with crashes is exactly the runner model's history with ERestart for each crash *)
+Theorem crun_is_run_events : forall c evs w, all_written evs = true -> c_dirty w = false -> c_disk w = tasks (c_mem w) ->
+  c_dirty (crun c w evs) = false /\ c_disk (crun c w evs) = tasks (c_mem (crun c w evs)) /\
+  c_mem (crun c w evs) = run_events c (c_mem w) (flat_map cerase evs).
+Proof.
+  intros c evs. induction evs as [|ce evs IH]; intros w Ha Hd Hk; [repeat split; assumption|].
+  simpl in Ha. apply andb_true_iff in Ha. destruct Ha as [Ha1 Ha2]. unfold crun in *. simpl fold_left.
+  destruct ce as [e written| |].
+  - destruct written; [|destruct e; discriminate].
+    destruct e; simpl; rewrite ?Hd.
+    + destruct (IH (mkC (ensure c (c_mem w)) (tasks (ensure c (c_mem w))) false) Ha2 eq_refl eq_refl) as (A & B & C).
+      repeat split; try assumption.
+    + destruct (IH (mkC (finish c id (c_mem w)) (tasks (finish c id (c_mem w))) false) Ha2 eq_refl eq_refl) as (A & B & C).
+      repeat split; try assumption.
+    + apply (IH w Ha2 Hd Hk).
+    + destruct (IH (mkC (stop c (c_mem w)) (tasks (stop c (c_mem w))) false) Ha2 eq_refl eq_refl) as (A & B & C).
+      repeat split; try assumption.
+  - simpl. rewrite Hd. apply (IH w Ha2 Hd Hk).
+  - simpl. destruct (IH (mkC (reload (c_disk w) (log (c_mem w))) (c_disk w) false) Ha2 eq_refl eq_refl) as (A & B & C).
+    repeat split; try assumption. rewrite C. simpl. unfold restart, persist. rewrite Hk. reflexivity.
+Qed.
+
+(* a step whose write fails, then the successful retry, is the step with an immediate write *)
+Lemma failed_then_retry : forall c w e, c_dirty w = false -> e <> ERestart ->
+  cstep c (cstep c w (CStep e false)) CRetry = cstep c w (CStep e true).
+Proof. intros c w e Hd He. destruct e; try congruence; simpl; rewrite Hd; reflexivity. Qed.
+
+(* a step whose write fails, then a crash, is the crash alone: the unacknowledged step is lost, nothing else *)
+Lemma failed_then_crash : forall c w e, c_dirty w = false -> e <> ERestart ->
+  tasks (c_mem (cstep c (cstep c w (CStep e false)) CCrash)) = tasks (c_mem (cstep c w CCrash)) /\
+  running (c_mem (cstep c (cstep c w (CStep e false)) CCrash)) = [] /\
+  c_disk (cstep c (cstep c w (CStep e false)) CCrash) = c_disk w.
+Proof. intros c w e Hd He. destruct e; try congruence; simpl; rewrite Hd; repeat split; reflexivity. Qed.
